@@ -331,7 +331,7 @@ pub fn check_c14(tier: Tier) -> Report {
             Term::Array(t, _) => usable.contains(&"array") && uses_only(t, usable),
         }
     }
-    let target: u64 = if tier == Tier::Thorough { 40_000_000 } else { 2_000_000 };
+    let target: u64 = if tier == Tier::Thorough { 60_000_000 } else { 6_000_000 };
     let mut ids: HashMap<u128, Term> = HashMap::new();
     let mut terms = 0u64;
     let mut nontrivial = 0u64;
